@@ -1453,6 +1453,8 @@ fn classify_solve(msg: &str) -> &'static str {
 
 #[derive(Default)]
 struct FnRec {
+    /// `Some(k)`: a method of an impl block (k makes the row id unique)
+    method: Option<usize>,
     name: String,
     n0: u32,
     d0: usize,
@@ -1492,7 +1494,15 @@ fn observe(col: &Rc<RefCell<Vec<FnRec>>>, genv: &PackageTypeEnv, typer: &mut Typ
     if genv.package != "Main" {
         return;
     }
+    // methods of impl blocks arrive with the phase shifted by 10 (second verif-hook commit)
+    let (method, phase) = if phase >= 10 { (true, phase - 10) } else { (false, phase) };
     let mut col = col.borrow_mut();
+    if phase == 0 && method {
+        let q0 = typer.verif_constraints().len();
+        let k = col.len();
+        col.push(FnRec { name: f.name.clone(), method: Some(k), n0: typer.verif_var_count(), d0: diags.len(), q0, ..Default::default() });
+        return;
+    }
     if phase == 0 {
         // `solve` leaves what it could not solve in the queue: after a rejected function the next one starts with it
         let q0 = typer.verif_constraints().len();
@@ -1511,17 +1521,27 @@ fn observe(col: &Rc<RefCell<Vec<FnRec>>>, genv: &PackageTypeEnv, typer: &mut Typ
             rec.skip = Some("leftover-queue".to_string());
             return;
         }
-        let tparams: Vec<TastIdent> = f.generics.iter().map(|g| TastIdent(g.to_ident_name())).collect();
+        let mut tparams: Vec<TastIdent> = if method { compiler::typer::verif_impl_generics().into_iter().map(TastIdent).collect() } else { Vec::new() };
+        tparams.extend(f.generics.iter().map(|g| TastIdent(g.to_ident_name())));
         let mut w = Walk { table: &typer.hir_table, genv, tparams: &tparams, ids: Vec::new(), names: Vec::new(), kinds: BTreeMap::new(), unsupported: None, check_closures: 0 };
         let body = w.expr(f.body);
         if let Some(k) = w.unsupported.take() {
             rec.skip = Some(k);
             return;
         }
-        let params: Vec<S> = f.params.iter().map(|(lid, t)| l(vec![n(lid.idx), w.ty_of(t)])).collect();
-        let ret = match &f.ret_ty {
-            Some(t) => w.ty_of(t),
-            None => dump::ty(&Ty::TUnit),
+        // a method's parameter / result types have `Self` replaced and see the impl generics: read what the typer used
+        let params: Vec<S> = if method {
+            let res = typer.results.results();
+            f.params.iter().map(|(lid, t)| l(vec![n(lid.idx), res.local_ty(*lid).map(dump::ty).unwrap_or_else(|| w.ty_of(t))])).collect()
+        } else {
+            f.params.iter().map(|(lid, t)| l(vec![n(lid.idx), w.ty_of(t)])).collect()
+        };
+        let ret = match (method, typer.verif_constraints().last()) {
+            (true, Some(Constraint::TypeEqual(_, r))) => dump::ty(r),
+            _ => match &f.ret_ty {
+                Some(t) => w.ty_of(t),
+                None => dump::ty(&Ty::TUnit),
+            },
         };
         let funs: Vec<S> = w.names.iter().filter_map(|nm| genv.current().get_type_of_function(nm).map(|t| l(vec![a(nm), dump::ty(&t)]))).collect();
         rec.input = Some(tagged(
@@ -1625,7 +1645,13 @@ fn extra_program(prefix: &str, k: usize, path: &std::path::Path, src: &str, labe
     cov.inc(&format!("{}_programs", key));
     let recs = col.borrow();
     for rec in recs.iter() {
-        let id = format!("{}{}.{}", prefix, k, rec.name);
+        let id = match rec.method {
+            Some(m) => format!("{}{}.{}#m{}", prefix, k, rec.name, m),
+            None => format!("{}{}.{}", prefix, k, rec.name),
+        };
+        if rec.method.is_some() {
+            cov.inc(&format!("{}_methods", key));
+        }
         cov.inc(&format!("{}_functions", key));
         if let Some(kind) = &rec.skip {
             out.push_str(&format!("{}\tSKIP\t{}\n", id, kind));
